@@ -45,7 +45,8 @@ func (f *Frame) locRead(h *Heap, l *Loc) Term {
 	case locLocal:
 		root = h.Comp(l.Comp, l.CompSort)
 	case locField, locCell:
-		root = Sel(h.Comp(l.Comp, l.CompSort), l.Base)
+		// a value just stored at this very location keeps its identity (closure references)
+		root = f.vc.SelectThrough(h.Comp(l.Comp, l.CompSort), l.Base)
 	case locElem:
 		root = f.w.Sorts.Elt(Sel(h.Comp(l.Comp, l.CompSort), l.Base), l.Off, l.Idx)
 	}
